@@ -17,8 +17,8 @@ type Entry struct {
 	Kind   string // counter gauge timer hvalue hduration flush close mark alloc-*
 	Name   string
 	Tags   map[string]string
-	I      int64   // counter delta / samples
-	F      uint64  // gauge bits
+	I      int64  // counter delta / samples
+	F      uint64 // gauge bits
 	D      time.Duration
 	LoF    float64
 	HiF    float64
